@@ -2,6 +2,7 @@ import PlcProofs.Props.C10
 #print axioms C10.expression_roundtrip
 #print axioms C10.mirror_reads_renderer_parenthesisation
 #print axioms C10.mirror_reads_printed_statements
+#print axioms C10.mirror_reads_printed_library
 #print axioms C10.renderer_model_prints_full_parentheses
 #print axioms C10.every_table_operator_is_written
 #print axioms C10.unparenthesised_nested_unary_not_read_back
